@@ -58,7 +58,7 @@ Definition diag (c : case) : list bool :=
   match c with
   | Celem p q v lqq lqv m_npq m_bi e_bi e_npq =>
       [ q_close (dq_mul FOps p q) lqq;
-        v_close (dq_rot FOps p v) lqv || v_close (qv_mul_builtin FOps p v) lqv;
+        v_close (dq_rot FOps (qunit FOps p) v) lqv;
         v_close (qv_mul_npq FOps p v) m_npq; v_close (qv_mul_builtin FOps p v) m_bi;
         v_close (qv_mul_builtin FOps p v) e_bi; v_close (qv_mul_builtin FOps p v) e_npq ]
   | Cqq k sA sB A B sE E sL L =>
@@ -66,8 +66,7 @@ Definition diag (c : case) : list bool :=
         shape_eqb (sA ++ sB) sL; all2 q_close (qq_outer_lazy FOps k sA sB A B) L ]
   | Cqv k sA sB A V sE E sL L =>
       [ shape_eqb (sA ++ sB) sE; all2 v_close (qv_outer_eager FOps A V) E;
-        shape_eqb (sA ++ sB) sL;
-        all2 v_close (qv_outer_lazy FOps k sA sB A V) L || all2 v_close (qv_outer_eager FOps A V) L ]
+        shape_eqb (sA ++ sB) sL; all2 v_close (qv_outer_lazy FOps k sA sB A V) L ]
   | Crr k sA sB A B sE E sL L =>
       [ shape_eqb (sA ++ sB) sE; all2 r_close (rot_outer_eager FOps A B) E;
         shape_eqb (sA ++ sB) sL; all2 r_close (rot_outer_lazy FOps k sA sB A B) L ]
@@ -82,13 +81,10 @@ Definition diag (c : case) : list bool :=
       let l := ori_dot_outer_lazy FOps k ss so X Y G in
       let ae := awo_eager_with FOps (cang FOps) ss so X Y G in
       let al := awo_lazy_with FOps (cang FOps) k ss so X Y G in
-      (* a lazy path repaired w.r.t. improper flags would agree with the flag-aware specification instead *)
-      let sp := ori_dot_outer_spec FOps (sym_dot_eager FOps) ss so X Y G in
-      let asp := ori_dot_outer_spec FOps (fun G' m => cang FOps (sym_dot_eager FOps G' m)) ss so (drop_flags X) Y G in
       [ shape_eqb (fst e) sE; lclose (snd e) E;
-        (shape_eqb (fst l) sL && lclose (snd l) L) || (shape_eqb (fst sp) sL && lclose (snd sp) L);
+        shape_eqb (fst l) sL && lclose (snd l) L;
         shape_eqb (fst ae) sAE; lclose (snd ae) AE;
-        (shape_eqb (fst al) sAL && lclose (snd al) AL) || (shape_eqb (fst asp) sAL && lclose (snd asp) AL) ]
+        shape_eqb (fst al) sAL && lclose (snd al) AL ]
   | Cmis k s X G sD D =>
       let r := mis_dm_lazy_with FOps (cang FOps) k s X G in
       [ shape_eqb (fst r) sD; lclose (snd r) D ]
@@ -97,7 +93,7 @@ Definition ok (c : case) : bool := forallb (fun b => b) (diag c).
 """
 
 FIELDS = {
-    "elem": ["lazy q*q formula", "lazy q*v formula", "q*v numpy-quaternion", "q*v built-in", "outer(q,v) built-in",
+    "elem": ["lazy q*q formula", "lazy q*v (formula on the unit quaternion)", "q*v numpy-quaternion", "q*v built-in", "outer(q,v) built-in",
              "outer(q,v) numpy-quaternion"],
     "qq": ["eager shape", "eager values", "lazy shape", "lazy values"],
     "odot": ["dot_outer shape", "dot_outer values", "_dot_outer_dask", "angle_with_outer eager shape",
